@@ -100,9 +100,9 @@ func init() {
 		Assumptions: []string{"runs as root on a file system with mknod, user.* and trusted.* xattrs", "the tree is not modified during the walk"},
 		Cases: func(tier string) int {
 			if tier == "thorough" {
-				return 12000
+				return 100000
 			}
-			return 800
+			return 3000
 		},
 		Batch:         100,
 		MinNontrivial: func(tier string) int { return 100 },
